@@ -141,6 +141,12 @@ theorem C07_nbhd_spec {α : Type} [DecidableEq α] (nb : α → List α) (r : Na
     (∀ ic, (nbhd nb (r+1) ic c).Nodup) :=
   ⟨nbhd_true_spec nb r c c', nbhd_false_spec nb r c c', fun ic => nbhd_nodup nb (r+1) ic c⟩
 
+
+/-- "Within r hops" is the usual notion: `Reach nb r c c'` iff there is a walk of at most r connection steps
+    from `c` to `c'`. -/
+theorem C07_reach_is_path {α : Type} (nb : α → List α) (r : Nat) (c c' : α) :
+    Reach nb r c c' ↔ ∃ p : List α, p.length ≤ r ∧ IsPath nb c p c' := reach_iff_path nb r c c'
+
 /-- Memo tables are transparent: for every connection structure and every sequence of
     `get_neighborhood` / `neighborhood` queries (any order, any repetition), starting from fresh tables
     the answers the code gives — each call and each recursive call first consulting
